@@ -153,8 +153,8 @@ func init() {
 		Setup:       validateOracle,
 		Timeout:     minutes(10, 60),
 		Cases: func(tier string, seed int64) []fw.Case {
-			l := mkCases(nil, "roundtrip", 32, seed, pick(tier, 400, 40000))
-			l = mkCases(l, "engine", 32, seed, pick(tier, 12, 600))
+			l := mkCases(nil, "roundtrip", 32, seed, pick(tier, 2000, 40000))
+			l = mkCases(l, "engine", 32, seed, pick(tier, 50, 600))
 			return l
 		},
 		Floors: func(string) map[string]int64 {
@@ -207,10 +207,10 @@ func init() {
 		Setup:       validateOracle,
 		Timeout:     minutes(10, 60),
 		Cases: func(tier string, seed int64) []fw.Case {
-			l := mkCases(nil, "fenfuzz", 32, seed, pick(tier, 3000, 300000))
+			l := mkCases(nil, "fenfuzz", 32, seed, pick(tier, 15000, 300000))
 			l = append(l, fw.Case{Idx: len(l), Kind: "crafted"})
 			l = append(l, fw.Case{Idx: len(l), Kind: "squares"})
-			l = mkCases(l, "moves", 32, seed, pick(tier, 10, 600))
+			l = mkCases(l, "moves", 32, seed, pick(tier, 40, 600))
 			return l
 		},
 		Floors: func(string) map[string]int64 {
